@@ -221,6 +221,52 @@ def check_table(acc, h, table, mode, order, layer):
                                'raw': [list(t) for t in table]})
 
 
+# ---- extra layer: typed binding with an over-long numeral, and a request class that reports the raw method ----
+X_ROUTES = [('/<n:int>', None, 'answer'), ('/<n:int>', ['GET'], 'answer'), ('/<n:int>', ['post'], 'nb404r'),
+            ('/<x>', None, 'answer'), ('/<x>', ['POST'], 'answer'), ('/<x>', ['get', 'Post'], 'nb403t')]
+X_PATHS = ['/5', '/' + '9' * 5000, '/abc', '/0']
+X_METHODS = ['GET', 'get', 'Post', 'POST', 'HEAD', 'head', 'PUT']
+
+
+def x_tables():
+    out = []
+    for n in (1, 2):
+        for combo in itertools.product(range(len(X_ROUTES)), repeat=n):
+            for raw_request in (False, True):
+                out.append((combo, raw_request))
+    return out
+
+
+def check_x(acc, h, combo, raw_request):
+    from clastic import Application, Route
+    from werkzeug.wrappers import Request
+    desc = [{'pattern': X_ROUTES[c][0], 'methods': X_ROUTES[c][1], 'behaviour': X_ROUTES[c][2]} for c in combo]
+
+    class RawMethodRequest(Request):
+        # an application-supplied request type (Application.request_type) that reports the method as sent
+        method = property(lambda self: self.environ['REQUEST_METHOD'], lambda self, v: None)
+
+    class RawApp(Application):
+        request_type = RawMethodRequest
+    cls = RawApp if raw_request else Application
+    app = cls([Route(d['pattern'], h.eps[(i, d['behaviour'])], methods=d['methods']) for i, d in enumerate(desc)])
+    for path in X_PATHS:
+        for method in X_METHODS:
+            exp = D.dispatch(desc, M.REDIRECT, path, method)
+            del h.log[:]
+            res = wsgi.call(app, path, method)
+            acc.evaluated += 1
+            acc.transitions += 1
+            acc.validated += 1
+            bad = compare(exp, res, h.log)
+            acc.outcome('%s:%s:%s' % (exp['kind'], len(exp.get('executed', ())), exp.get('status', '-')))
+            acc.add('nontrivial')
+            if bad:
+                sig = 'C06:%s:%s:%s' % (exp['kind'], bad[0], 'raw-method-request' if raw_request else 'typed')
+                acc.violation(sig, '%s; table=%r request=%s %s' % (bad[1], desc, method, path[:40]),
+                              {'x': list(combo), 'raw_request': raw_request, 'path': path, 'method': method})
+
+
 def nshards(tier):
     return 32 if tier == 'quick' else 64
 
@@ -245,6 +291,10 @@ def shard(tier, i, n, seed):
             if idx % 5003 == 0:
                 acc.sample({'layer': name, 'mode': mode, 'table': describe(table),
                             'requests': len(REQ_PATHS) * len(REQ_METHODS)})
+    for k, (combo, raw_request) in enumerate(x_tables()):
+        if k % n == i:
+            check_x(acc, h, combo, raw_request)
+            acc.add('tables')
     return acc
 
 
@@ -261,6 +311,7 @@ def space_size(tier):
                     f *= k
                 mult += f
             total += t * mult * nreq
+    total += len(x_tables()) * len(X_PATHS) * len(X_METHODS)
     return total
 
 
@@ -278,6 +329,7 @@ def finish(tier, merged, results):
         b[name] = {'route_catalogue': len(cat), 'routes_per_table': ns, 'modes': modes, 'all_add_orders': with_add,
                    'tables': layer_size(cat, ns, modes)}
     b['requests_per_table'] = len(REQ_PATHS) * len(REQ_METHODS)
+    b['X'] = {'tables': len(x_tables()), 'routes': X_ROUTES, 'paths': [p[:12] for p in X_PATHS], 'methods': X_METHODS}
     return {'space_size': space_size(tier), 'bounds': b,
             'distinct_nontrivial': len(oc),
             'coverage': {'tables_built': merged['extra'].get('tables', 0),
@@ -288,6 +340,10 @@ def replay(case):
     common.setup_repo()
     acc = common.Acc()
     h = Harness()
+    if 'x' in case:
+        check_x(acc, h, tuple(case['x']), case['raw_request'])
+        bad = [v for v in acc.violations if v['case']['path'] == case['path'] and v['case']['method'] == case['method']]
+        return (False, bad[0]['desc']) if bad else (True, 'ok')
     table = [tuple(t) for t in case['raw']]
     desc = describe(table)
     app = h.build(table, case['mode'], case.get('order'))
